@@ -60,7 +60,7 @@ class Profile:
     p_wild: int = 30                    # a scheduler under a timeout is wild
     p_sched_critical: int = 50
     p_sched_forever: int = 8
-    p_verbose: int = 8
+    p_verbose: int = 15
     p_coroutine: int = 30
     p_pure_top: int = 25
     allow_empty: bool = True
@@ -70,6 +70,7 @@ class Profile:
     p_inspect: int = 10                 # read-only inspection calls at every quiescent point
     p_exc: int = 25                     # among raising jobs: a builtin exception class
     p_label: int = 10                   # an odd label (braces, quotes, %, newline...)
+    p_excmsg: int = 20                  # among raising jobs: an odd message (half of them: none)
     p_print: int = 5                    # the job is a PrintJob of the library
     p_rerun: int = 0                    # the judged run is the second run of the same objects
     p_wide: int = 3                     # % of cases whose top scheduler is wide (12..130 jobs)
@@ -98,6 +99,44 @@ EXC_NAMES = ['TimeoutError', 'KeyError', 'ValueError', 'OSError', 'RuntimeError'
              'ConnectionResetError', 'InvalidStateError', 'IndexError', 'AttributeError',
              'TypeError', 'UnicodeEncodeError']
 ENTRIES = ['run', 'orchestrate', 'co_run', 'run-no-current-loop', 'co_run-called-early']
+
+
+def requirement_endings_sweep():
+    """a job requires a nested scheduler one job of which raises (every exception class, with
+    and without a message, verbose or not, critical or not) while another is still at work"""
+    combos = [(exc, msg, verbose, crit, cls, w)
+              for exc in ['VExc'] + EXC_NAMES for msg in (None, '')
+              for verbose in (False, True) for crit in (False, True)
+              for cls in ('abstract', 'coroutine') for w in (None, 1)]
+
+    def job(ident, d, **kw):
+        out = dict(kind='job', id=ident, cls='abstract', d=d, k=0, outcome='return',
+                   critical=False, forever=False, c=0, sd=0, hkey=1, tkey=0)
+        out.update(kw)
+        return out
+
+    def sched(ident, members, **kw):
+        out = dict(kind='sched', id=ident, cls='nestable', window=None, timeout=None, sdt=1,
+                   critical=False, forever=False, verbose=False, hkey=0, tkey=0,
+                   members=members, edges=[], order=list(range(len(members))), build='ctor',
+                   wild=False)
+        out.update(kw)
+        return out
+
+    def chunk(k):
+        for n, (exc, msg, verbose, crit, cls, w) in enumerate(combos):
+            if n % 8 != k:
+                continue
+            boom = job('j1', 1, outcome='raise', critical=crit, exc=exc, cls=cls)
+            if msg is not None:
+                boom['excmsg'] = msg
+            inner = sched('s1', [boom, job('j2', 3), job('j3', 2)], verbose=verbose, window=w,
+                          edges=[[0, 2]] if n % 2 else [])
+            yield sched('s0', [inner, job('j4', 1), job('j5', 2)], edges=[[0, 1], [0, 2]],
+                        verbose=verbose)
+    return ('a requirement that is a nested scheduler with a raising job: %d exception classes '
+            'x message or none x verbose x critical x job class x window' % (len(EXC_NAMES) + 1),
+            8, chunk)
 
 
 def exception_entry_sweep():
@@ -156,9 +195,9 @@ def _draw_job(draw, prof, wild, wide=False):
         extra['label'] = draw(st.sampled_from(ODD_LABELS))
     if chance(draw, prof.p_exc):
         extra['exc'] = draw(st.sampled_from(EXC_NAMES))
-        if chance(draw, 40):
-            # (an exception without a message, as a bare `raise ValueError()`, is common)
-            extra['excmsg'] = '' if chance(draw, 30) else draw(st.sampled_from(ODD_LABELS))
+    if chance(draw, prof.p_excmsg):
+        # (an exception without a message, as a bare `raise ValueError()`, is common)
+        extra['excmsg'] = '' if chance(draw, 50) else draw(st.sampled_from(ODD_LABELS))
     if chance(draw, prof.p_late_critical):
         extra['late_critical'] = True       # the job turns critical just before raising
     if chance(draw, prof.p_ret):
@@ -392,7 +431,7 @@ def assign_ids(spec):
     return spec
 
 
-PLAIN = dict(p_label=0, p_exc=0, p_ret=0, p_late_attrs=0, p_watch=0, p_inspect=0, p_prelude=0,
+PLAIN = dict(p_label=0, p_exc=0, p_excmsg=0, p_ret=0, p_late_attrs=0, p_watch=0, p_inspect=0, p_prelude=0,
              p_latefill=0, p_rerun=0, p_print=0, p_block=0, p_wide=0, p_late_critical=0, p_flagform=0, p_cexc=0)
 
 
@@ -430,6 +469,7 @@ def scenarios(draw, prof=GENERAL):
         if chance(draw, 50) and len(top['members']) <= 130:
             top['prelude'] = True   # re-wired between the two runs
         _force_abstract(top)        # a coroutine object cannot be awaited twice
+        top['rerun_first'] = draw(weighted((('free', 3), ('w1', 1), ('asis', 2))))
         if chance(draw, 40):
             # some schedulers have members of the first run only, removed before the second
             # (a critical one that raises makes that first run of its scheduler fail)
@@ -450,7 +490,7 @@ def scenarios(draw, prof=GENERAL):
                         nghost += 1
                         sp['ghosts'].append(dict(
                             kind='job', id='g%d' % nghost, cls='abstract',
-                            d=draw(st.sampled_from([0, 1, 2])), k=0,
+                            d=draw(st.sampled_from([0, 1, 2, 9])), k=0,
                             outcome='raise' if chance(draw, 70) else 'return',
                             critical=chance(draw, 70), forever=False, c=0, sd=0,
                             hkey=draw(st.integers(0, prof.hkeys - 1)),
